@@ -263,7 +263,8 @@ Record c04case := {
   i_exc : option string;              (* exception class that ended run(), if any *)
   i_rows : list (list Q); i_wid : Z;  (* sim.pilot_signals, station-major, and its shape[1] *)
   i_iter : Z;                         (* sim._iteration *)
-  i_sent : list (list Q)              (* EVSE.current_pilot of every station after each period, chronological *)
+  i_sent : list (list Q);             (* EVSE.current_pilot of every station after each period, chronological *)
+  i_hist : option (list Z)            (* sorted(sim.schedule_history) when store_schedule_history=True *)
 }.
 
 Definition check_c04 (c : c04case) : bool :=
@@ -273,7 +274,11 @@ Definition check_c04 (c : c04case) : bool :=
   && qmat_eqb (rows (pil st)) (i_rows c)
   && Z.eqb (Z.of_nat (wid (pil st))) (i_wid c)
   && Z.eqb (Z.of_nat (itn st)) (i_iter c)
-  && qmat_eqb (rev (sent st)) (i_sent c).
+  && qmat_eqb (rev (sent st)) (i_sent c)
+  && match i_hist c with
+     | None => true
+     | Some l => list_eqb Z.eqb (map (fun e => Z.of_nat (fst e)) (rev (hist st))) l
+     end.
 
 (* stream 2: sim._update_schedules called directly on a prepared simulator *)
 Record c04ucase := {
